@@ -1,13 +1,56 @@
-(* Driver of the extracted model (avmodel.ml): one sub-command per interface.
-   hex <dir> <n>: for each case i in [dir] compare the extracted model's file with the
-   implementation's file and evaluate the specification oracle on the implementation's file.
-   Output: one line per case  "<i> <corr:ok|MISMATCH|noimpl> <spec:ok|FAIL|noimpl> <len>" *)
+(* Driver of the extracted model (avmodel.ml): one sub-command per interface; see each cmd_*. *)
 open Avmodel
 
+(* ---- conversions between OCaml values and the extracted inductives ---- *)
 let rec pos_of_int n = if n = 1 then XH else if n land 1 = 1 then XI (pos_of_int (n lsr 1)) else XO (pos_of_int (n lsr 1))
 let n_of_int n = if n = 0 then N0 else Npos (pos_of_int n)
 let rec int_of_pos = function XH -> 1 | XO p -> 2 * int_of_pos p | XI p -> 2 * int_of_pos p + 1
 let int_of_n = function N0 -> 0 | Npos p -> int_of_pos p
+let rec nat_of_int n = if n <= 0 then O else S (nat_of_int (n - 1))
+
+(* arbitrary-size decimal <-> positive (values up to i64 and beyond do not fit OCaml's 63-bit int) *)
+let pos_of_decimal d : positive option =
+  (* digits as int array, repeated division by two *)
+  let a = Array.init (String.length d) (fun i -> Char.code d.[i] - 48) in
+  let is_zero () = Array.for_all (fun x -> x = 0) a in
+  let div2 () = let r = ref 0 in Array.iteri (fun i x -> let v = !r * 10 + x in a.(i) <- v / 2; r := v mod 2) a; !r in
+  let bits = ref [] in
+  while not (is_zero ()) do bits := div2 () :: !bits done;
+  (* bits: most significant first *)
+  match !bits with
+  | [] -> None
+  | _ :: rest -> Some (List.fold_left (fun p b -> if b = 1 then XI p else XO p) XH rest)
+let z_of_string s : z =
+  let neg = String.length s > 0 && s.[0] = '-' in
+  let d = if neg then String.sub s 1 (String.length s - 1) else s in
+  match pos_of_decimal d with None -> Z0 | Some p -> if neg then Zneg p else Zpos p
+let decimal_of_pos p =
+  (* bits most significant first, decimal digit list least significant first *)
+  let rec bits p acc = match p with XH -> 1 :: acc | XO q -> bits q (0 :: acc) | XI q -> bits q (1 :: acc) in
+  let dbl_add ds b = let c = ref b in let r = List.map (fun x -> let v = 2 * x + !c in c := v / 10; v mod 10) ds in
+    if !c > 0 then r @ [!c] else r in
+  let ds = List.fold_left dbl_add [0] (bits p []) in
+  String.concat "" (List.rev_map string_of_int ds)
+let string_of_z = function Z0 -> "0" | Zpos p -> decimal_of_pos p | Zneg p -> "-" ^ decimal_of_pos p
+let string_of_n = function N0 -> "0" | Npos p -> decimal_of_pos p
+let z_of_int i = z_of_string (string_of_int i)
+let int_of_z = function Z0 -> 0 | Zpos p -> int_of_pos p | Zneg p -> - (int_of_pos p)
+
+let ascii_of_char c = let n = Char.code c in
+  Ascii (n land 1 <> 0, n land 2 <> 0, n land 4 <> 0, n land 8 <> 0, n land 16 <> 0, n land 32 <> 0, n land 64 <> 0, n land 128 <> 0)
+let char_of_ascii (Ascii (a, b, c, d, e, f, g, h)) =
+  let bit x k = if x then 1 lsl k else 0 in
+  Char.chr (bit a 0 + bit b 1 + bit c 2 + bit d 3 + bit e 4 + bit f 5 + bit g 6 + bit h 7)
+let str_of_string s : ascii list = List.init (String.length s) (fun i -> ascii_of_char s.[i])
+let string_of_str (l : ascii list) = String.init (List.length l) (fun i -> char_of_ascii (List.nth l i))
+let rec cstring_of_string s (i : int) : Avmodel.string =
+  if i >= String.length s then EmptyString else String (ascii_of_char s.[i], cstring_of_string s (i + 1))
+let cstr s = cstring_of_string s 0
+let rec string_of_cstring = function EmptyString -> "" | String (c, r) -> String.make 1 (char_of_ascii c) ^ string_of_cstring r
+
+let hex_of_bytes (l : n list) = String.concat "" (List.map (fun b -> Printf.sprintf "%02x" (int_of_n b)) l)
+let split_on c s = String.split_on_char c s
+let read_lines () = let r = ref [] in (try while true do r := input_line stdin :: !r done with End_of_file -> ()); List.rev !r
 
 let read_file path =
   let ic = open_in_bin path in
@@ -41,7 +84,54 @@ let cmd_hex () =
   done
 
 
+(* ---- enc: instruction::process.  stdin as harness/src/enc.rs; stdout per case
+   "<model: hex|ERR|PANIC|FUEL> <spec: hex|NONE> <decoded>" *)
+let fuel = nat_of_int 200
+let reduced_device = { default_device with opts = [Avr8l] }
+let reg16_of = function 'X' -> RX | 'Y' -> RY | _ -> RZ
+let parse_arg a : iop * warg =
+  let idxf r k = match r, k with
+    | 'X', 0 -> FX | 'X', 1 -> FXp | 'X', _ -> FmX | 'Y', 0 -> FY | 'Y', 1 -> FYp | 'Y', _ -> FmY
+    | _, 0 -> FZ | _, 1 -> FZp | _, _ -> FmZ in
+  let rest k = String.sub a k (String.length a - k) in
+  match a.[0] with
+  | 'r' -> let n = int_of_string (rest 1) in (OR8 (n_of_int n), WReg (z_of_int n))
+  | 'e' -> let v = z_of_string (rest 1) in (OE (EConst v), WExp v)
+  | 'n' -> (OE (EIdent (str_of_string (rest 1))), WOther)
+  | '-' -> (OIndex (IPreDec (reg16_of a.[1])), WIdx (idxf a.[1] 2))
+  | c when String.length a = 1 -> (OIndex (INone (reg16_of c)), WIdx (idxf c 0))
+  | c when String.length a = 2 -> (OIndex (IPostInc (reg16_of c)), WIdx (idxf c 1))
+  | c -> let v = z_of_string (rest 3) in
+         (OIndex (IPostIncE (reg16_of c, EConst v)), (match c with 'Y' -> WIdxQ (true, v) | 'Z' -> WIdxQ (false, v) | _ -> WOther))
+
+let words_hex (ws : z list) = String.concat "" (List.map (fun w -> let v = int_of_z w in Printf.sprintf "%02x%02x" (v land 255) (v lsr 8)) ws)
+let show_warg = function
+  | WReg n -> "r" ^ string_of_z n | WExp v -> "e" ^ string_of_z v
+  | WIdx f -> (match f with FX -> "X" | FXp -> "X+" | FmX -> "-X" | FY -> "Y" | FYp -> "Y+" | FmY -> "-Y" | FZ -> "Z" | FZp -> "Z+" | FmZ -> "-Z")
+  | WIdxQ (y, q) -> (if y then "Y+q" else "Z+q") ^ string_of_z q
+  | WOther -> "?"
+
+let cmd_enc () =
+  let cf = ctx_new default_device and cr = ctx_new reduced_device in
+  List.iter (fun line ->
+    match split_on ' ' line with
+    | [c; pc; name; args] ->
+      let ctx, core = if c = "R" then cr, Reduced else cf, Full in
+      let pairs = if args = "-" then [] else List.map parse_arg (split_on ',' args) in
+      let op = operation_of_name (str_of_string name) in
+      let pcn = n_of_int (int_of_string pc) in
+      let m = match process fuel ctx op (List.map fst pairs) pcn with
+        | Ok bs -> hex_of_bytes bs | Err _ -> "ERR" | Panic -> "PANIC" | OutOfFuel -> "FUEL" in
+      let sp = expect core (z_of_string pc) (cstr (String.lowercase_ascii name)) (List.map snd pairs) in
+      let spec, dec = match sp with
+        | Some ws -> words_hex ws, (match decode core (z_of_string pc) ws with
+                                    | Some (n, w) -> string_of_cstring n ^ ":" ^ String.concat "," (List.map show_warg w) | None -> "UNDECODABLE")
+        | None -> "NONE", "-" in
+      Printf.printf "%s %s %s\n" m spec dec
+    | _ -> ()) (read_lines ())
+
 let () =
   match Sys.argv.(1) with
   | "hex" -> cmd_hex ()
+  | "enc" -> cmd_enc ()
   | c -> prerr_endline ("unknown command " ^ c); exit 2
